@@ -1,12 +1,15 @@
 import EmsModel.Core.Transect
+import EmsModel.Lemmas.PathClip
 import Mathlib.Algebra.Order.Field.Rat
 import Mathlib.Tactic.Linarith
 /-!
 # C18 — transects cover exactly the part of the path inside the model, in path order
 
-Stated in the path-parameter model of `Core/Transect.lean`.  Metric lengths (PROJ) and the
-constructive geometry (GEOS `intersection`) are outside the model; the correspondence
-validates the exact rational clipping on lattice-aligned paths.
+Stated in the path-parameter model of `Core/Transect.lean`.  Metric lengths (PROJ) are outside
+the model.  The constructive geometry is inside it for convex cells: `Core/PathClip.lean` clips
+the path against a cell polygon and the second half of this file proves that the pieces are
+exactly the parts of the path inside the cell; GEOS `polygon.intersection(line)` is compared
+with that clipper by the correspondence on lattice-aligned paths.
 -/
 namespace Ems.C18
 open Ems
@@ -159,5 +162,139 @@ example : NonOverlapping [⟨0, 1, 3⟩, ⟨1, 2, 4⟩, ⟨5/2, 3, 9⟩] := by
   simp only [NonOverlapping]; norm_num
 example : totalLength [⟨0, 1, 3⟩, ⟨1, 2, 4⟩, ⟨5/2, 3, 9⟩] + gaps [⟨0, 1, 3⟩, ⟨1, 2, 4⟩, ⟨5/2, 3, 9⟩] = 3 := by
   simp only [totalLength, gaps, List.map, List.foldl]; norm_num
+
+/-! ## The clipping of the path against the cells (convex cells): `Core/PathClip.lean`
+
+`insideConvex poly p` is the closed convex polygon as an intersection of half-planes (one per
+edge, winding normalised).  `clipLegConvex` is proved to return *exactly* the part of a leg
+inside it, `clipPathConvex` the stretches of the whole path, and the segments built from those
+pieces lie — with every one of their points — in the polygon of the cell they name. -/
+open Ems.PathClip in
+/-- **each segment lies within its cell's polygon** (one leg): the returned interval is inside
+`[0,1]` and *every* parameter in it — not only its ends — denotes a point of the closed cell -/
+theorem clip_sound (poly : Poly) (a b : Pt) (lo hi : Rat) (h : clipLegConvex poly a b = some (lo, hi)) :
+    0 ≤ lo ∧ lo ≤ hi ∧ hi ≤ 1 ∧ ∀ s, lo ≤ s → s ≤ hi → insideConvex poly (legPoint a b s) := by
+  obtain ⟨h0, h1, h2⟩ := clipLegConvex_bounds poly a b lo hi h
+  refine ⟨h0, h1, h2, fun s hs1 hs2 => ?_⟩
+  exact ((mem_clipLegConvex poly a b s).mp (by rw [h]; exact ⟨hs1, hs2⟩)).2
+
+open Ems.PathClip in
+/-- nothing inside the cell is left out: every point of the leg inside the cell is in the piece -/
+theorem clip_complete (poly : Poly) (a b : Pt) (s : Rat) (h0 : 0 ≤ s) (h1 : s ≤ 1)
+    (hin : insideConvex poly (legPoint a b s)) :
+    ∃ lo hi, clipLegConvex poly a b = some (lo, hi) ∧ lo ≤ s ∧ s ≤ hi := by
+  have m := (mem_clipLegConvex poly a b s).mpr ⟨⟨h0, h1⟩, hin⟩
+  cases hcl : clipLegConvex poly a b with
+  | none => rw [hcl] at m; exact m.elim
+  | some p => rw [hcl] at m; exact ⟨p.1, p.2, rfl, m.1, m.2⟩
+
+open Ems.PathClip in
+/-- no piece ⇔ no point of the leg is inside the cell -/
+theorem clip_none_iff (poly : Poly) (a b : Pt) :
+    clipLegConvex poly a b = none ↔ ∀ s, 0 ≤ s → s ≤ 1 → ¬ insideConvex poly (legPoint a b s) := by
+  constructor
+  · intro h s h0 h1 hin
+    obtain ⟨lo, hi, hc, _⟩ := clip_complete poly a b s h0 h1 hin
+    rw [h] at hc; cases hc
+  · intro h
+    cases hcl : clipLegConvex poly a b with
+    | none => rfl
+    | some p =>
+      obtain ⟨lo, hi⟩ := p
+      obtain ⟨h0, h1, h2, hin⟩ := clip_sound poly a b lo hi hcl
+      exact (h lo h0 (le_trans h1 h2) (hin lo (le_refl _) h1)).elim
+
+/-- point touches are not pieces (`_intersect_polygon` keeps only the `LineString` parts) -/
+theorem clip_piece_iff (poly : Poly) (a b : Pt) (lo hi : Rat) :
+    clipLegConvexPiece poly a b = some (lo, hi) ↔ clipLegConvex poly a b = some (lo, hi) ∧ lo < hi :=
+  Ems.PathClip.clipLegConvexPiece_eq_some poly a b lo hi
+
+open Ems.PathClip in
+/-- whole path, soundness: a returned piece is a proper interval and every parameter in it
+denotes a point of the path (the only one it denotes) that is inside the cell; merging the
+contiguous pieces of consecutive legs changes nothing of that -/
+theorem clip_path_sound (poly : Poly) (path : List Pt) (p : Rat × Rat) (hp : p ∈ clipPathConvex poly path) :
+    p.1 < p.2 ∧ ∀ t, p.1 ≤ t → t ≤ p.2 →
+      (∃ q, OnPath path t q ∧ insideConvex poly q) ∧ ∀ q, OnPath path t q → insideConvex poly q := by
+  refine ⟨clipPathConvex_proper poly path p hp, fun t h1 h2 => ?_⟩
+  obtain ⟨q, hq, hin⟩ := clipPathConvex_sound poly path t ⟨p, hp, h1, h2⟩
+  exact ⟨⟨q, hq, hin⟩, fun q' hq' => onPath_unique path t q q' hq hq' ▸ hin⟩
+
+open Ems.PathClip in
+/-- whole path, completeness: a point of leg `k` inside the cell lies in a returned piece,
+unless it is the only point of that leg in the cell (a point touch, dropped by emsarray) -/
+theorem clip_path_complete (poly : Poly) (path : List Pt) (k : Nat) (a b : Pt) (s s' : Rat)
+    (ha : path[k]? = some a) (hb : path[k + 1]? = some b)
+    (hs : 0 ≤ s ∧ s ≤ 1) (hs' : 0 ≤ s' ∧ s' ≤ 1) (hne : s ≠ s')
+    (hin : insideConvex poly (legPoint a b s)) (hin' : insideConvex poly (legPoint a b s')) :
+    ∃ p ∈ clipPathConvex poly path, p.1 ≤ (k : Rat) + s ∧ (k : Rat) + s ≤ p.2 :=
+  clipPathConvex_complete poly path k a b s s' ha hb hs hs' hne hin hin'
+
+/-- **each segment lies within its cell's polygon.**  When the pieces handed to `segments` are
+the clips of the path against the (convex) cell polygons, every segment names a cell whose
+polygon contains every point of the segment, and `start < stop`. -/
+theorem segments_within_cells (cells : List (Nat × Poly)) (path : List Pt) (s : Segment)
+    (h : s ∈ segments (cells.map fun c => (c.1, clipPathConvex c.2 path))) :
+    s.start ≤ s.stop ∧ s.start < s.stop ∧ ∃ c ∈ cells, s.linear = c.1 ∧
+      ∀ t, s.start ≤ t → t ≤ s.stop →
+        (∃ q, OnPath path t q ∧ insideConvex c.2 q) ∧ ∀ q, OnPath path t q → insideConvex c.2 q := by
+  obtain ⟨cell, hc, hlin, p, hp, hst, hsp⟩ := segment_names_cell _ s h
+  obtain ⟨c, hcm, rfl⟩ := List.mem_map.mp hc
+  obtain ⟨hlt, hin⟩ := clip_path_sound c.2 path p hp
+  have e1 : s.start = p.1 := by rw [hst]; exact min_eq_left (le_of_lt hlt)
+  have e2 : s.stop = p.2 := by rw [hsp]; exact max_eq_right (le_of_lt hlt)
+  refine ⟨by rw [e1, e2]; exact le_of_lt hlt, by rw [e1, e2]; exact hlt, c, hcm, hlin, ?_⟩
+  intro t h1 h2
+  exact hin t (e1 ▸ h1) (e2 ▸ h2)
+
+open Ems.PathClip in
+/-- **cells do not overlap ⇒ their pieces share boundary points only.**  If no point is strictly
+inside both cells (and each cell has an interior), a parameter lying in the pieces of both
+cells on one leg denotes a point on the boundary of both: inside both closed cells, strictly
+inside neither.  (It does *not* follow that the pieces overlap in end points only: a leg running
+along a shared edge lies in both closed cells — finding `transect-edge-running-duplicated`,
+`shared_edge_same_piece` below.) -/
+theorem disjoint_interiors_pieces_overlap_only_on_boundaries (P Q : Poly) (a b : Pt)
+    (hdis : ∀ p, ¬ (strictInside P p ∧ strictInside Q p))
+    (hP : ∃ p, strictInside P p) (hQ : ∃ q, strictInside Q q)
+    (lo₁ hi₁ lo₂ hi₂ : Rat) (h₁ : clipLegConvex P a b = some (lo₁, hi₁))
+    (h₂ : clipLegConvex Q a b = some (lo₂, hi₂)) (s : Rat)
+    (hs₁ : lo₁ ≤ s ∧ s ≤ hi₁) (hs₂ : lo₂ ≤ s ∧ s ≤ hi₂) :
+    (insideConvex P (legPoint a b s) ∧ ¬ strictInside P (legPoint a b s)) ∧
+    (insideConvex Q (legPoint a b s) ∧ ¬ strictInside Q (legPoint a b s)) := by
+  have i1 := (clip_sound P a b lo₁ hi₁ h₁).2.2.2 s hs₁.1 hs₁.2
+  have i2 := (clip_sound Q a b lo₂ hi₂ h₂).2.2.2 s hs₂.1 hs₂.2
+  refine ⟨⟨i1, not_strictInside_of_disjoint P Q hdis hQ _ i2⟩,
+          ⟨i2, not_strictInside_of_disjoint Q P (fun p hp => hdis p ⟨hp.2, hp.1⟩) hP _ i1⟩⟩
+
+/-! ### non-vacuity of the clipping theorems -/
+/-- a quad (counter-clockwise) and a leg crossing it: the clip is a proper sub-interval -/
+example : clipLegConvex [(0, 0), (4, 0), (4, 2), (0, 2)] (-2, 1) (6, 1) = some (1/4, 3/4) := by decide +kernel
+/-- the same ring wound clockwise gives the same piece -/
+example : clipLegConvex [(0, 0), (0, 2), (4, 2), (4, 0)] (-2, 1) (6, 1) = some (1/4, 3/4) := by decide +kernel
+example : convex [(0, 0), (4, 0), (4, 2), (0, 2)] = true ∧ convex [(0, 0), (0, 2), (4, 2), (4, 0)] = true ∧
+    convex [(0, 0), (4, 0), (4, 1), (1, 1), (1, 4), (0, 4)] = false ∧ convex [(0, 0), (1, 1), (2, 2)] = false := by
+  decide +kernel
+/-- a leg that only touches the corner `(0,2)`: the clip is the single parameter `1/2`, and it is
+not a piece -/
+example : clipLegConvex [(0, 0), (2, 0), (2, 2), (0, 2)] (-1, 1) (1, 3) = some (1/2, 1/2) ∧
+    clipLegConvexPiece [(0, 0), (2, 0), (2, 2), (0, 2)] (-1, 1) (1, 3) = none := by decide +kernel
+/-- a leg that misses the cell -/
+example : clipLegConvex [(0, 0), (2, 0), (2, 2), (0, 2)] (-2, 2) (2, 6) = none := by decide +kernel
+/-- a path entering a cell on one leg and leaving on the next: one merged piece across the vertex -/
+example : clipPathConvex [(0, 0), (2, 0), (2, 2), (0, 2)] [(-1, 1), (1, 1), (1, 3), (3, 3)] = [(1/2, 3/2)] := by
+  decide +kernel
+/-- the known finding as a fact of the geometry: a leg along the edge shared by two unit squares
+is, whole, in both closed cells — the same piece for both, although no point is strictly inside both -/
+theorem shared_edge_same_piece :
+    clipPathConvex [(0, 0), (1, 0), (1, 1), (0, 1)] [(0, 1), (1, 1)] = [(0, 1)] ∧
+    clipPathConvex [(0, 1), (1, 1), (1, 2), (0, 2)] [(0, 1), (1, 1)] = [(0, 1)] := by decide +kernel
+/-- the hypotheses of `disjoint_interiors_pieces_overlap_only_on_boundaries` are satisfiable: the two unit
+squares have interiors and the shared-edge points are strictly inside neither -/
+example : strictInsideB [(0, 0), (1, 0), (1, 1), (0, 1)] (1/2, 1/2) = true ∧
+    strictInsideB [(0, 1), (1, 1), (1, 2), (0, 2)] (1/2, 3/2) = true ∧
+    strictInsideB [(0, 0), (1, 0), (1, 1), (0, 1)] (1/2, 1) = false ∧
+    insideConvexB [(0, 0), (1, 0), (1, 1), (0, 1)] (1/2, 1) = true ∧
+    insideConvexB [(0, 1), (1, 1), (1, 2), (0, 2)] (1/2, 1) = true := by decide +kernel
 
 end Ems.C18
